@@ -438,16 +438,27 @@ def readString (old : Bytes) (tag : Nat) (require : Bool) : RM Bytes := fun r =>
       | (.ok l, r2) => nextExact l r2
     else (.error .mismatch, r1)
 
+/-- `Reader.CheckLength(length)`: a length or element count read from the input must not be
+    negative and cannot exceed the bytes left (every element takes at least one byte). -/
+def checkLength (len : Int) : RM Unit := fun r =>
+  if len < 0 ∨ len > (r.remaining : Int) then (.error .eof, r) else (.ok (), r)
+
 /-- `Reader.ReadSliceInt8 / ReadSliceUint8` (`len` is the int32 argument); returns the new slice
     (`nil` when `len ≤ 0`; the previous content `old` of the target is irrelevant since the fix
-    "an empty byte vector on the wire clears the target") -/
+    "an empty byte vector on the wire clears the target"); the length is validated before the
+    slice is allocated. -/
 def readSlice8 (_old : Bytes) (len : Int) : RM Bytes := fun r =>
   if len ≤ 0 then (.ok [], r)
-  else readFull len.toNat r
+  else
+    match checkLength len r with
+    | (.error e, r') => (.error e, r')
+    | (.ok (), r') => readFull len.toNat r'
 
-/-- `Reader.ReadBytes`: no `len ≤ 0` guard: `make([]byte, len)` panics for negative `len` -/
+/-- `Reader.ReadBytes`: the length is validated (negative lengths are an error, no longer a
+    `make` panic) before the slice is allocated. -/
 def readBytes (len : Int) : RM Bytes := fun r =>
-  if len < 0 then (.error (.panic "makeslice"), r)
-  else readFull len.toNat r
+  match checkLength len r with
+  | (.error e, r') => (.error e, r')
+  | (.ok (), r') => readFull len.toNat r'
 
 end Tars
